@@ -1,7 +1,100 @@
 import Mutagen.Driver.Util
+import Mutagen.Model.StreamWriters
 namespace Mutagen.Driver.C47
+open Mutagen.Driver Mutagen.Model.StreamWriters
 
-/-- Model-side handler for one line of the C47 correspondence stream. -/
-def handle (_line : String) : String := "unimplemented"
+/-!
+Line: `<kind> <params…> <op>…`
+  `cut <N> <script> w:<hex>…`                 cutoff writer
+  `lp <max> (w:<hex> | f:<n>:<hexbyte>)…`     line processor (`f`: one write of n equal bytes)
+  `hash <script> w:<hex>…`                    hashing writer
+  `pre <interval> <script> (w:<hex> | c)…`    preemptable writer (`c`: close the channel)
+  `valve <open 0|1> <script> (w:<hex> | s)…`  valve writer (`s`: Shut)
+  `mc <e>,<e>,…`                              multi-closer (0: closes fine, k>0: returns error k)
+`<script>` is `-` or `accept/mode;…` (downstream responses; mode 0: error iff
+short, 1: error, 2: never an error, even when short).
+Output: per write `<n>/<err>` (line processor: plus `[callback arguments]`),
+then ` |<downstream bytes>|<offered lengths>|<writer state>`.
+-/
+
+def showErr : Err → String
+  | .none => "ok" | .peer => "peer" | .preempted => "preempted" | .maxbuf => "maxbuf"
+
+def parseScript (s : String) : Option (List WResp) :=
+  if s == "-" then some [] else
+  (s.splitOn ";").mapM fun r =>
+    match r.splitOn "/" with
+    | [a, f] => do pure { accept := ← a.toNat?, fail := f == "1", lax := f == "2" }
+    | _ => none
+
+def parseInt (s : String) : Option Int :=
+  if s.startsWith "-" then (s.drop 1).toNat?.map fun n => -(n : Int) else s.toNat?.map fun n => (n : Int)
+
+def showLines (l : List (List UInt8)) : String :=
+  if l.isEmpty then "none" else ",".intercalate (l.map encHex)
+
+def tail (d : Down) (state : String) : String :=
+  s!" |{encHex d.got}|{showNatList d.offers}|{state}"
+
+def parseWrite (op : String) : Option (List UInt8) :=
+  match op.splitOn ":" with
+  | ["w", h] => decHex h
+  | ["f", n, h] => do
+    match ← decHex h with
+    | [b] => pure (List.replicate (← n.toNat?) b)
+    | _ => none
+  | _ => none
+
+def runCut (w : Cutoff) : List String → List String → Option String
+  | [], acc => some (" ".intercalate acc.reverse ++ tail w.down (toString w.cutoff))
+  | op :: ops, acc => do
+    let (w', n, e) := w.write (← parseWrite op)
+    runCut w' ops (s!"{n}/{showErr e}" :: acc)
+
+def runLp (p : LineProc) : List String → List String → Option String
+  | [], acc => some (" ".intercalate acc.reverse ++ s!" |{encHex p.buffer}")
+  | op :: ops, acc => do
+    let (p', n, e) := p.write (← parseWrite op)
+    runLp p' ops (s!"{n}/{showErr e}[{showLines (p'.lines.drop p.lines.length)}]" :: acc)
+
+def runHash (w : Hashed) : List String → List String → Option String
+  | [], acc => some (" ".intercalate acc.reverse ++ tail w.down (encHex w.hashed))
+  | op :: ops, acc => do
+    let (w', n, e) := w.write (← parseWrite op)
+    runHash w' ops (s!"{n}/{showErr e}" :: acc)
+
+def runPre (w : Preempt) (cancelled : Bool) : List String → List String → Option String
+  | [], acc => some (" ".intercalate acc.reverse ++ tail w.down (toString w.writeCount))
+  | "c" :: ops, acc => runPre w true ops ("c" :: acc)
+  | op :: ops, acc => do
+    let (w', n, e) := w.write cancelled (← parseWrite op)
+    runPre w' cancelled ops (s!"{n}/{showErr e}" :: acc)
+
+def runValve (w : Valve) : List String → List String → Option String
+  | [], acc => some (" ".intercalate acc.reverse ++ tail w.down "-")
+  | "s" :: ops, acc => runValve w.shut ops ("s" :: acc)
+  | op :: ops, acc => do
+    let (w', n, e) := w.write (← parseWrite op)
+    runValve w' ops (s!"{n}/{showErr e}" :: acc)
+
+def handle (line : String) : String :=
+  let r : Option String :=
+    match fields line with
+    | "cut" :: n :: script :: ops => do
+      runCut { down := Down.new (← parseScript script), cutoff := ← n.toNat? } ops []
+    | "lp" :: max :: ops => do
+      runLp { maxBuf := ← parseInt max, buffer := [], lines := [] } ops []
+    | "hash" :: script :: ops => do
+      runHash { down := Down.new (← parseScript script), hashed := [] } ops []
+    | "pre" :: interval :: script :: ops => do
+      runPre { down := Down.new (← parseScript script), checkInterval := ← interval.toNat?, writeCount := 0 } false ops []
+    | "valve" :: isOpen :: script :: ops => do
+      runValve { down := Down.new (← parseScript script), isOpen := isOpen == "1" } ops []
+    | ["mc", closers] => do
+      let cs ← natList closers
+      let (called, err) := MultiCloser.close (cs.map fun e => if e = 0 then none else some e)
+      pure s!"{showNatList called}/{match err with | none => "ok" | some e => toString e}"
+    | _ => none
+  r.getD "bad-op"
 
 end Mutagen.Driver.C47
